@@ -506,7 +506,6 @@ impl<'m> MCTPSMBusContext<'m> {
                     let len;
 
                     match header.command_code().into() {
-                        CommandCode::Reserved => unreachable!(),
                         CommandCode::SetEndpointID => {
                             if payload[0] == MCTPSetEndpointIDOperations::SetEID as u8
                                 || payload[0] == MCTPSetEndpointIDOperations::ForceEID as u8
@@ -641,21 +640,27 @@ impl<'m> MCTPSMBusContext<'m> {
                                 unreachable!()
                             };
                         }
-                        CommandCode::ResolveEndpointID => unimplemented!(),
-                        CommandCode::AllocateEndpointIDs => unimplemented!(),
-                        CommandCode::RoutingInformationUpdate => unimplemented!(),
-                        CommandCode::GetRoutingTableEntries => unimplemented!(),
-                        CommandCode::PrepareForEndpointDiscovery => unimplemented!(),
-                        CommandCode::EndpointDiscovery => unimplemented!(),
-                        CommandCode::DiscoveryNotify => unimplemented!(),
-                        CommandCode::GetNetworkID => unimplemented!(),
-                        CommandCode::QueryHop => unimplemented!(),
-                        CommandCode::ResolveUUID => unimplemented!(),
-                        CommandCode::QueryRateLimit => unimplemented!(),
-                        CommandCode::RequestTXRateLimit => unimplemented!(),
-                        CommandCode::UpdateRateLimit => unimplemented!(),
-                        CommandCode::QuerySupportedInterfaces => unimplemented!(),
-                        _ => unimplemented!(),
+                        _ => {
+                            // The command isn't supported on this endpoint.
+                            // This includes reserved and unknown command
+                            // codes, tell the requester.
+                            let command_header = MCTPControlMessageHeader::new_from_buf([
+                                0x00,
+                                header.command_code(),
+                            ]);
+                            let message_header = Some(&(command_header.0[..]));
+                            let message_data = [CompletionCode::ErrorUnsupportedCmd as u8];
+
+                            len = self
+                                .get_response()
+                                .generate_control_packet_bytes(
+                                    base_header.source_endpoint_id(),
+                                    &message_header,
+                                    &message_data,
+                                    response_buf,
+                                )
+                                .unwrap();
+                        }
                     }
 
                     return Ok(((msg_type, payload), Some(len)));
